@@ -474,6 +474,37 @@ def run(ctx):
                           "filter-copies-subset", "provenance", f.loc(i), "filter copies a subset of its input", "filter copies " + str(a[:3]))
     ctx.floor("sortDesc_instances", 3, "sortDescWithKillPrefs instantiations")
 
+    # ------------------------------------------------------------ R13a a victim that was signalled is reported as signalled
+    # (tryToLogAndKillCgroup turns an error of tryToKillCgroup into "0 killed", and the DFS then moves on to the next victim)
+    tkc_ = ctx.fn1("Oomd::BaseKillPlugin::tryToKillCgroup")
+    sinks_ = tkc_.calls("getAndTryToKillPids")
+    fsk = Flow(P, tkc_, events={i: [("set", "may-have-signalled")] for i in sinks_}, cg=ctx.cg,
+               edge_tokens=lambda k, p: ["may-have-signalled"] if (k in ("maybeKilled", "maybeKilled.operator bool()") and p is True) else None)
+    cnt_ = None
+    for i_ in sinks_:
+        par_ = tkc_.parent.get(i_)
+        while par_ is not None and tkc_.nodes[par_]["k"] in ("cast", "paren"):
+            par_ = tkc_.parent.get(par_)
+        if par_ is not None and tkc_.nodes[par_]["k"] == "bin" and tkc_.nodes[par_].get("op") in ("+=", "="):
+            cnt_ = tkc_.text(tkc_.nodes[par_]["l"])
+    if cnt_ is None:
+        ctx.broken("signalled-victim-is-reported:counter", "anchor", tkc_.loc(), "the result of getAndTryToKillPids is not accumulated into a local")
+        cnt_ = "?"
+    n_after = 0
+    for r in returns(tkc_):
+        if not fsk.may(r, "may-have-signalled"):
+            continue
+        n_after += 1
+        t = ret_text(tkc_, r)
+        Xk = Expander(P, tkc_)
+        is_count = re.match(r"^(Oomd::SystemMaybe\()?%s\)?$" % re.escape(cnt_), t) is not None
+        ctx.check(is_count, "signalled-victim-is-reported:tryToKillCgroup@%d" % tkc_.nodes[r].get("line", 0), "return_table (after a kill sink)", tkc_.loc(r),
+                  "once processes may have been signalled the function returns the number signalled",
+                  "after processes of the victim may have been signalled the function returns '%s' instead of the count: the caller treats an error as "
+                  "'nothing killed' and goes on to signal the next-best cgroup in the same invocation" % t[:70])
+    ctx.counters["returns_after_kill_sink"] = n_after
+    ctx.floor("returns_after_kill_sink", 1, "returns of tryToKillCgroup reachable after a kill sink")
+    tlk = ctx.fn1("Oomd::BaseKillPlugin::tryToLogAndKillCgroup")
     # ------------------------------------------------------------ R13 first success ends the invocation
     for f in (rts, rfp):
         calls = f.calls("tryToLogAndKillCgroup")
